@@ -401,7 +401,7 @@ def run_case(case: dict) -> dict:
     hist = simkit.History()
     clock = SimClock()
     script = _Script(case, clock, hist)
-    out_dir = tempfile.mkdtemp(prefix="verif-c33-", dir="/dev/shm")
+    out_dir = tempfile.mkdtemp(prefix="verif-c33-")
     cfg = pyn.make_config("tiny", out_dir, seed=case["run_seed"] % 1000,
                           stopping={"maximum_search_time": case["budget"], "maximum_iterations": case["iterations"]},
                           test_case_output={"assertion_generation": config.AssertionGenerator.SIMPLE},
